@@ -36,7 +36,8 @@ META = {
     "trusted": "z3 (BV for integers, LRA for reals, bv2int at the int/real boundary); the proxies mirror CPython's int.__op__(float) -> "
                "NotImplemented and float's reflected comparison; every path cross-validated against the unpatched classes",
     "bounds": {"quick": {"tree leaves": 4, "depth": 3, "int range": "[-32768, 32767]", "lookup entries": 3},
-               "thorough": {"tree leaves": 5, "depth": 3, "int range": "[-32768, 32767]", "lookup entries": 3}},
+               "thorough": {"tree leaves": 5, "depth": 3, "int range": "[-32768, 32767]", "lookup entries": 3},
+               "both": {"wide integers": "values in [-2^63, 2^64) against literals 2^53, 2^53+1, 2^64-1, -2^63, 2^63-1"}},
     "stubs": ["warnings.warn recorded"],
     "outside_claim": ["string / bytes operands", "NaN and infinities", "float rounding (reals)", "lookup entries whose value is 0 (the string "
                       "length loop treats a zero value as 'no match'; documented in DESIGN.md C07)"],
@@ -181,6 +182,38 @@ class ComparisonH(Harness):
             cls = judge_bool(f"{sp}", got, exc, rel_term(OPS[sp], sel, litv), obl)
         inputs = dict(P.inputs(), op=sp, cal=cal, lit=lit, in_packet=in_packet)
         return result(cls, obl, observe={"result": _r(got) if exc is None else None, "exc": exc, "cls": "ran"}, inputs=inputs)
+
+
+WIDE_LITS = ("9007199254740993", "9007199254740992", "18446744073709551615", "-9223372036854775808", "9223372036854775807")
+
+
+class WideH(Harness):
+    """integer operands at the extremes: values over the whole signed / unsigned 64-bit range against literals just beyond 2^53 (where a detour
+    through float would lose the last bit) and at the 64-bit limits; the relation is decided exactly on bit-vectors"""
+    kind = "wide"
+
+    def run(self, ctx):
+        lib = self.lib
+        W = bv.W
+        cfg = choose(ctx, "cfg", len(HIST_OPS) * len(WIDE_LITS) * 2 * 2)
+        sp = HIST_OPS[cfg % len(HIST_OPS)]
+        cfg //= len(HIST_OPS)
+        lit = WIDE_LITS[cfg % len(WIDE_LITS)]
+        cfg //= len(WIDE_LITS)
+        cal, what = bool(cfg % 2), ("comparison", "condition")[(cfg // 2) % 2]
+        v = z3.BitVec("v0", W)
+        ctx.assume(z3.And(v >= -(1 << 63), v < (1 << 64)))
+        pkt = lib.packets.CCSDSPacket(raw_data=b"")
+        pkt["P0"] = lib.common.IntParameter(bv.SymInt(v))
+        if what == "comparison":
+            obj = lib.comparisons.Comparison(lit, "P0", operator=sp, use_calibrated_value=cal)
+        else:
+            obj = lib.comparisons.Condition("P0", sp, right_value=lit, left_use_calibrated_value=cal, right_use_calibrated_value=False)
+        got, exc = outcome(lambda: obj.evaluate(pkt))
+        obl = []
+        cls = judge_bool(f"{sp} {lit}", got, exc, REL[OPS[sp]](v, z3.BitVecVal(int(lit), W)), obl)
+        return result(cls, obl, observe={"result": _r(got) if exc is None else None, "exc": exc, "cls": "ran"},
+                      inputs={"v0": bv.SymInt(v), "op": sp, "lit": lit, "cal": cal, "what": what})
 
 
 HIST_OPS = ("==", "!=", "<", "gt", "leq", ">=")
@@ -386,8 +419,8 @@ class Twin(ComparisonH):
 
 
 def make(job):
-    lib = bv.install(64)
-    h = {"comparison": ComparisonH, "history": HistoryH, "tree": TreeH, "lookup": LookupH, "twin": Twin}[job["h"]](job)
+    lib = bv.install(96 if job["h"] == "wide" else 64)
+    h = {"comparison": ComparisonH, "wide": WideH, "history": HistoryH, "tree": TreeH, "lookup": LookupH, "twin": Twin}[job["h"]](job)
     h.lib = lib
     return h
 
@@ -397,6 +430,7 @@ KINDSETS = [("int", "int", "int"), ("int", "float", "cal"), ("cal", "int", "floa
 
 def jobs(tier):
     out = [{"name": "comparison", "h": "comparison", "params": {}, "split": 32, "chunk": 40, "must_reach": ["True", "False", "uncoercible"]}]
+    out.append({"name": "wide-integers", "h": "wide", "params": {}, "split": 16, "chunk": 40, "must_reach": ["True", "False"]})
     out.append({"name": "history", "h": "history", "params": {}, "split": 32, "chunk": 40, "must_reach": ["True/False", "False/True"]})
     sh = shapes(4 if tier == "quick" else 5, 3)
     for n, s in enumerate(sh):
@@ -447,10 +481,21 @@ def _enc_result(fn):
     return {"cls": "ran", "result": repr(r), "value": repr(r), "exc": None}
 
 
+def packets_mod():
+    from space_packet_parser import packets
+    return packets
+
+
 def concrete(req):
     from space_packet_parser import common
     from space_packet_parser.xtce import comparisons as C, encodings
     i = req["input"]
+    if req["kind"] == "wide":
+        pkt = packets_mod().CCSDSPacket(raw_data=b"")
+        pkt["P0"] = common.IntParameter(i["v0"])
+        obj = C.Comparison(i["lit"], "P0", operator=i["op"], use_calibrated_value=i["cal"]) if i["what"] == "comparison" else \
+            C.Condition("P0", i["op"], right_value=i["lit"], left_use_calibrated_value=i["cal"], right_use_calibrated_value=False)
+        return _enc_result(lambda: obj.evaluate(pkt))
     pkt, vals = _mkpacket(i)
     if req["kind"] in ("comparison", "twin"):
         comp = C.Comparison(i["lit"], "P0" if i["in_packet"] else "OTHER", operator=i["op"], use_calibrated_value=i["cal"])
@@ -461,6 +506,12 @@ def concrete(req):
         with warnings.catch_warnings():
             warnings.simplefilter("ignore")
             return _enc_result(lambda: comp.evaluate(pkt, cur))
+    if req["kind"] == "wide":
+        pkt = packets_mod().CCSDSPacket(raw_data=b"")
+        pkt["P0"] = common.IntParameter(i["v0"])
+        obj = C.Comparison(i["lit"], "P0", operator=i["op"], use_calibrated_value=i["cal"]) if i["what"] == "comparison" else \
+            C.Condition("P0", i["op"], right_value=i["lit"], left_use_calibrated_value=i["cal"], right_use_calibrated_value=False)
+        return _enc_result(lambda: obj.evaluate(pkt))
     if req["kind"] == "history":
         if i["what"] == "comparison":
             obj = C.Comparison(i["lit"], "P0", operator=i["op"], use_calibrated_value=i["cal"])
@@ -531,6 +582,11 @@ def judge(req, got):
         desc = f"Comparison(P {i['op']} {i['lit']}, calibrated={i['cal']}, in_packet={i['in_packet']}) kind={i['kinds'][0]} value={a}"
         if got["exc"] is not None or got["result"] is not want:
             return "reproduced", f"{desc}: expected {want}, got {got['result']!r} exc={got['exc']}"
+        return "not-reproduced", "agrees"
+    if req["kind"] == "wide":
+        want = PYREL[OPS[i["op"]]](i["v0"], int(i["lit"]))
+        if got["exc"] is not None or got["result"] is not want:
+            return "reproduced", f"{i['what']} P0 {i['op']} {i['lit']} (calibrated={i['cal']}) on the integer value {i['v0']}: expected {want}, got {got['result']!r} exc={got['exc']}"
         return "not-reproduced", "agrees"
     if req["kind"] == "history":
         bad = []
